@@ -18,6 +18,32 @@ def resName : Res → String
 inductive Call where
   | broker (b : Nat) (op : TOp)
   | operator (crd : Snap)
+  /-- hand broker `b` the oldest notification its watch stream is holding -/
+  | late (b : Nat)
+
+/-- model state + per broker the notifications held by its (lagging) watch stream, as indices into
+`State.hist` (every write of the snapshot key notifies every broker, the writer included) -/
+structure DS where
+  s : State
+  held : List (List Nat)
+
+def DS.init : DS := { s := KafVerif.Snapshot.init (fun _ => []), held := List.replicate 3 [] }
+
+/-- after a step: if the snapshot key was written, every watch stream holds one more notification -/
+def noteWrite (before : State) (d : DS) : DS :=
+  if d.s.hist.length > before.hist.length then
+    { d with held := d.held.map fun q => q ++ [d.s.hist.length - 1] }
+  else d
+
+def stepD (d : DS) (st : Step) : DS × Res :=
+  let (s', r) := step merge d.s st
+  (noteWrite d.s { d with s := s' }, r)
+
+/-- deliver the oldest held notification of `b`; `none` if nothing is held -/
+def deliverD (d : DS) (b : Nat) : Option DS :=
+  match d.held.getD b [] with
+  | [] => none
+  | r :: rest => some (stepD { d with held := d.held.set b rest } (.deliver b r)).1
 
 def parseCrd (s : String) : Option Snap :=
   if s = "-" then some [] else
@@ -30,6 +56,7 @@ def parseCall : List String → Option Call
   | [b, "create", t, n] => do pure (.broker (← b.toNat?) (.create (← t.toNat?) (← n.toInt?)))
   | [b, "grow", t, n] => do pure (.broker (← b.toNat?) (.grow (← t.toNat?) (← n.toInt?)))
   | [b, "delete", t] => do pure (.broker (← b.toNat?) (.delete (← t.toNat?)))
+  | ["late", b] => do pure (.late (← b.toNat?))
   | _ => none
 
 def splitWith (ws : List String) : List (List String) :=
@@ -39,47 +66,69 @@ def splitWith (ws : List String) : List (List String) :=
   go [] [] ws
 
 /-- finish a pending update: the txn, and after a conflict the retry's txn (≤ 5 attempts). -/
-def finish (s : State) (b : Nat) : Nat → State × Res
-  | 0 => (s, .pending)
+def finish (d : DS) (b : Nat) : Nat → DS × Res
+  | 0 => (d, .pending)
   | fuel + 1 =>
-    let (s', r) := step merge s (.commit b)
-    if r = .pending && (s'.brokers b).pend.isSome then finish s' b fuel else (s', r)
+    let (d', r) := stepD d (.commit b)
+    if r = .pending && (d'.s.brokers b).pend.isSome then finish d' b fuel else (d', r)
 
-def publish (s : State) (crd : Snap) : State × Res :=
-  let (s1, _) := step merge s (.opGet crd)
-  step merge s1 .opTxn
+def publish (d : DS) (crd : Snap) : DS × Res :=
+  let (d1, _) := stepD d (.opGet crd)
+  stepD d1 .opTxn
 
-/-- a complete call with nothing in between -/
-def callNow (s : State) : Call → State × Res
+/-- a complete call with nothing in between; a `late` delivery to a broker that is inside its own
+call only takes effect after that call (the watcher waits for `persistMu`): reported through `deferred` -/
+def callNow (d : DS) (outer : Nat) : Call → DS × String × Bool
   | .broker b op =>
-    let (s1, r) := step merge s (.begin b op)
-    if r = .pending then finish s1 b 6 else (s1, r)
-  | .operator crd => publish s crd
+    let (d1, r) := stepD d (.begin b op)
+    if r = .pending then let (d2, r2) := finish d1 b 6; (d2, resName r2, false) else (d1, resName r, false)
+  | .operator crd => let (d1, r) := publish d crd; (d1, resName r, false)
+  | .late b =>
+    match d.held.getD b [] with
+    | [] => (d, "none", false)
+    | r :: rest =>
+      let d0 := { d with held := d.held.set b rest }
+      if b = outer then (d0, "late", true) else ((stepD d0 (.deliver b r)).1, "late", false)
 
-def stepLine (s : State) (ws : List String) : State × String :=
+def drain (d : DS) (b : Nat) : Nat → DS
+  | 0 => d
+  | fuel + 1 => match deliverD d b with
+    | some d' => drain d' b fuel
+    | none => d
+
+def stepLine (d : DS) (ws : List String) : DS × String :=
   match ws with
-  | ["reset"] => let s' := init (fun _ => []); (s', "reset " ++ dumpAll s')
+  | ["reset"] => (DS.init, "reset " ++ dumpAll DS.init.s)
   | "call" :: rest =>
     match (splitWith rest).mapM parseCall with
     | some (.broker b op :: inj) =>
-      if b ≥ nBrokers || inj.any (fun c => match c with | .broker b' _ => b' == b || b' ≥ nBrokers | _ => false) then (s, "bad-op") else
-      let (s1, r) := step merge s (.begin b op)
-      if r != .pending then (s1, s!"call res={resName r} inj=- " ++ dumpAll s1) else
-      let (s2, rs) := inj.foldl (fun (acc : State × List String) c =>
-        let (s', r') := callNow acc.1 c; (s', acc.2 ++ [resName r'])) (s1, [])
-      let (s3, r3) := finish s2 b 6
+      if b ≥ nBrokers || inj.any (fun c => match c with
+          | .broker b' _ => b' == b || b' ≥ nBrokers | .late b' => b' ≥ nBrokers | _ => false) then (d, "bad-op") else
+      let (d1, r) := stepD d (.begin b op)
+      if r != .pending then (d1, s!"call res={resName r} inj=- " ++ dumpAll d1.s) else
+      let (d2, rs, deferred) := inj.foldl (fun (acc : DS × List String × Bool) c =>
+        let (d', r', df) := callNow acc.1 b c; (d', acc.2.1 ++ [r'], acc.2.2 || df)) (d1, [], false)
+      let (d3, r3) := finish d2 b 6
+      -- deliveries that had to wait for the call: the watcher now re-reads the key
+      let d4 := if deferred then (stepD d3 (.watch b)).1 else d3
       let injs := if rs.isEmpty then "-" else joinWith "," rs
-      (s3, s!"call res={resName r3} inj={injs} " ++ dumpAll s3)
-    | _ => (s, "bad-op")
+      (d4, s!"call res={resName r3} inj={injs} " ++ dumpAll d4.s)
+    | _ => (d, "bad-op")
   | ["watch", b] => match b.toNat? with
-    | some b => if b ≥ nBrokers then (s, "bad-op") else
-      let (s', _) := step merge s (.watch b); (s', "watch " ++ dumpAll s')
-    | none => (s, "bad-op")
+    | some b => if b ≥ nBrokers then (d, "bad-op") else
+      let d' := drain d b 10000; (d', "watch " ++ dumpAll d'.s)
+    | none => (d, "bad-op")
+  | ["late", b] => match b.toNat? with
+    | some b => if b ≥ nBrokers then (d, "bad-op") else
+      match deliverD d b with
+      | some d' => (d', "late delivered " ++ dumpAll d'.s)
+      | none => (d, "late none " ++ dumpAll d.s)
+    | none => (d, "bad-op")
   | ["publish", crd] => match parseCrd crd with
-    | some crd => let (s', r) := publish s crd; (s', s!"publish res={resName r} " ++ dumpAll s')
-    | none => (s, "bad-op")
-  | ["live"] => (s, "live ok")
-  | ["stress", _, _] => (s, "stress ok")
-  | _ => (s, "bad-op")
+    | some crd => let (d', r) := publish d crd; (d', s!"publish res={resName r} " ++ dumpAll d'.s)
+    | none => (d, "bad-op")
+  | ["live"] => (d, "live ok")
+  | ["stress", _, _] => (d, "stress ok")
+  | _ => (d, "bad-op")
 
-def main : IO Unit := runLines (init (fun _ => [])) stepLine
+def main : IO Unit := runLines DS.init stepLine
